@@ -18,6 +18,9 @@ type c07Case struct {
 	Chain  []string `json:"chain"` // target kinds applied in order (one for a plain conversion, A->B->A for a round trip)
 	Safe   bool     `json:"safe"`
 	RoundT bool     `json:"roundTrip"` // the chain must end in the original value
+	// Host > 0: the source is built from a host value through NewVariant / VariantFromObject, with every Go type the
+	// constructor maps to the value's variant type (int32 for Integer, uint / uint32 for Long ...), chosen by Host
+	Host int `json:"host,omitempty"`
 }
 
 var kindToType = map[string]variants.VariantType{"null": variants.Null, "int": variants.Integer, "long": variants.Long, "float": variants.Float,
@@ -32,6 +35,9 @@ func checkC07(c c07Case) *evid.Fail {
 		mgr = "type-safe"
 	}
 	cur := c.V.toVariant()
+	if c.Host > 0 {
+		cur = c.V.toHostVariant(c.Host)
+	}
 	curVal := c.V
 	for step, target := range c.Chain {
 		before := fromVariant(cur)
@@ -155,9 +161,12 @@ func TestC07_Exhaustive(t *testing.T) {
 		v := pool[i]
 		for _, safe := range []bool{false, true} {
 			for _, k := range allKinds {
-				c07Run(rec, c07Case{v, []string{k}, safe, false})
+				c07Run(rec, c07Case{V: v, Chain: []string{k}, Safe: safe})
+				for host := 1; host <= 3; host++ {
+					c07Run(rec, c07Case{V: v, Chain: []string{k}, Safe: safe, Host: host})
+				}
 				if k != v.K {
-					c07Run(rec, c07Case{v, []string{k, v.K}, safe, false})
+					c07Run(rec, c07Case{V: v, Chain: []string{k, v.K}, Safe: safe})
 				}
 			}
 		}
@@ -228,7 +237,7 @@ func TestC07_RapidRoundTrips(t *testing.T) {
 	rts := c07RoundTrips()
 	runRapid(t, pick(40000, 300000), 7, func(rt *rapid.T) {
 		r := rapid.SampledFrom(rts).Draw(rt, "pair")
-		c := c07Case{r.gen(rt), []string{r.via, r.from}, false, true}
+		c := c07Case{V: r.gen(rt), Chain: []string{r.via, r.from}, RoundT: true, Host: rapid.SampledFrom([]int{0, 0, 1, 2, 3, 4}).Draw(rt, "host")}
 		if c07Run(rec, c) {
 			rt.Fatalf("C07 violated")
 		}
@@ -248,7 +257,7 @@ func TestC07_Rapid(t *testing.T) {
 		if rapid.IntRange(0, 19).Draw(rt, "obj") == 0 {
 			v = val{K: "object", S: "payload"}
 		}
-		c := c07Case{v, []string{rapid.SampledFrom(allKinds).Draw(rt, "target")}, rapid.Bool().Draw(rt, "safe"), false}
+		c := c07Case{V: v, Chain: []string{rapid.SampledFrom(allKinds).Draw(rt, "target")}, Safe: rapid.Bool().Draw(rt, "safe"), Host: rapid.SampledFrom([]int{0, 0, 0, 1, 2, 3}).Draw(rt, "host")}
 		if c07Run(rec, c) {
 			rt.Fatalf("C07 violated")
 		}
@@ -267,7 +276,7 @@ func TestC07_EnumSafeManagerOperators(t *testing.T) {
 	parallelFor(len(pool), func(i int) {
 		for _, b := range pool {
 			for _, op := range []string{"Add", "Equal", "Less"} {
-				c := c06Case{op, pool[i], b, true}
+				c := c06Case{Op: op, A: pool[i], B: b, Safe: true}
 				rec.Case(jsonStr(c), pool[i].K != "null" && b.K != "null" && pool[i].K != b.K, func() interface{} { return c })
 				if f := checkC06(c); f != nil {
 					f.Sig = "safe-manager-operator:" + f.Sig
